@@ -5,6 +5,8 @@ from harness.props.c09 import Band
 
 class C10(scen.WorldProp):
     id = "C10"
+    fuzz_kinds = {"ring", "call"}
+    fuzz_times = False
     lean_module = "Wheatley.Props.C10"
     theorems = ["Wheatley.C10.assertion_passes",
                 "Wheatley.C10.boundary_keeps_inv",
